@@ -233,6 +233,17 @@ PROPS = {
              "defects. Does not decide that the output parses and evaluates identically (the parser cannot run here).",
         note="Grammar alternative <-> constructor method pairing relies on the ANTLR visitX naming / the constructor's ctx_id dispatch. "
              "Names that need quotes without being reserved words (e.g. 'my ds') are not covered. Known finding: 3.0 is written 3."),
+    "C25": dict(
+        claimed=True, design="§3 C25",
+        technique="totality of ast_to_sdmx's isinstance dispatch over the return-class closure of the AST constructor's visitStatement (class hierarchy aware); def-use of the Transformation/Ruleset/UDO fields; per-branch counter/append ordering; compact-mode field-read inventory of the renderer; the literal/operator/default/name rules and the interprocedural text-rewrite taint rule shared with C24",
+        text="Decides the structural clauses of scheme equivalence: every kind of top-level statement the parser can build is mapped "
+             "(subclass before base), each assignment gives one Transformation carrying the statement's own result name, "
+             "persistence constant and rendered right-hand side, item ids come from counters incremented once per item, definitions "
+             "are rendered whole with type/scope labels following the node, the compact renderer loses no field and obeys the same "
+             "lossless literal / operator-shape / naming rules as prettify, and the rendered texts are not rewritten afterwards. "
+             "Does not decide that running the scheme gives the same results (parser and pysdmx needed).",
+        note="pysdmx's generate_vtl_script (scheme -> script) is trusted. Known findings: ViralPropagationDef statements are dropped; "
+             "3.0 written as 3."),
 }
 
 NA_REASONS = {
